@@ -419,6 +419,39 @@ def server_scenarios(rng, eng, msgs, n, tier):
         chunks = [stream] if r.chance(1, 2) else random_chunking(r, stream)
         case = f"SV g {rs(chunks)} {ws([])} {len(frames)} " + " ".join("A " + a[0][2:] for a in answers)
         out.append((case, ("ret", xb(b"".join(a[1] for a in answers))), "retransmission", len(frames)))
+    # the same, with what a duplicate-detection scheme would key on (RFC 6733 5.5.4 / 3: Origin-Host + End-to-End Identifier):
+    # requests of the built-in dictionary carrying Origin-Host, sent again with the T flag, the same End-to-End id and a fresh
+    # or the same Hop-by-Hop id, on the same connection and on later ones (the harness process serves all cases) - the
+    # connection loop has no business answering any of them itself: one handler call each, the handler's answer each
+    hosts = [b"host.example.com", b"a.b", b"peer-%d.realm" % (rng.fork("oh").below(1000))]
+    ohist = []
+    for k in range(12 if tier == "quick" else 200):
+        r = rng.fork(f"oh{k}")
+        e2e = [0x7000 + k % 4, r.below(1 << 32)][k % 2]
+        host = hosts[k % len(hosts)]
+        cmd, app = [(0x110, 4), (0x101, 0), (0x118, 0)][k % 3]
+        for j, (fl, hbh) in enumerate([(0x80, 0x5000 + k), (0x90, 0x5000 + k), (0x90, 0x6000 + k), (0xd0, 0x5000 + k)]):
+            ops = [("ADDAVP", 264, None, 0x40, ("L", ("id", host))), ("ADDAVP", 296, None, 0x40, ("L", ("id", b"realm.example.com")))]
+            if j >= 2:
+                ops.append(("ADDAVP", 415, None, 0x40, ("L", ("u32", j))))
+            ohist.append(hist_line("b", ("NEW", cmd, app, fl, hbh, e2e), ops))
+    oimpl = core.run_sharded([eng.harness, "codec"], eng.prelude, ohist)
+    omsgs = [(c, bytes.fromhex(im[im.rindex(" ENC ") + 6:].split()[0]), msg_text(im)) for c, im in zip(ohist, oimpl) if im.startswith("R ok") and " ENC x" in im]
+    if len(omsgs) != len(ohist):
+        raise core.MachineryError("the implementation could not build the Origin-Host requests of the retransmission family")
+    for k in range(len(omsgs) // 4):
+        r = rng.fork(f"ohc{k}")
+        grp = omsgs[4 * k:4 * k + 4]
+        for variant in range(2):
+            if variant == 0:
+                frames = [grp[0][1]] + [omsgs[r.below(len(omsgs))][1] for _ in range(r.range(0, 2))] + [g[1] for g in grp[1:]]
+            else:
+                frames = [grp[r.range(1, 3)][1]]                 # alone on a later connection: the key was seen by an EARLIER connection
+            answers = [msgs[r.below(len(msgs))] for _ in frames]
+            stream = b"".join(frames)
+            chunks = [stream] if r.chance(1, 2) else random_chunking(r, stream)
+            case = f"SV b {rs(chunks)} {ws([])} {len(frames)} " + " ".join("A " + a[0][2:] for a in answers)
+            out.append((case, ("ret", xb(b"".join(a[1] for a in answers))), "retransmission-origin-host", len(frames)))
     # every command the library knows as the first request of a pipeline (capabilities exchange, watchdog, disconnect-peer, ...):
     # whatever a command means to the application, the connection loop treats it like any other request - the two requests
     # behind it are handled and answered
